@@ -44,6 +44,13 @@ const CORPUS: &[(&str, &str)] = &[
     ("atab", "a … b k > *"), ("ha.ta", "* > e / _$x"), ("pata", "p, t, k > b, d, g | _a, _e"), ("tas", "s[+cons] > z"), ("pat", "a > e / _ ({#,t},0) x"), ("pa.ta", "a > e / _ ({$,C},0) i"), ("tak", "C … C > l a b"), ("tak", "C … C > l a"), ("zɛɡ", "[-syll] ... [-rho] > l a b"),
 ];
 
+/// shapes on which seeded changes of round 8 were first missed by the generated streams; run AFTER the generated cases (no draw moves)
+const CORPUS2: &[(&str, &str)] = &[
+    ("tsat", "a > e / :{ C=1 _ 1, C=1 s _ 1 }:"), ("tsas", "a > e / :{ C=1 s _ 1, C=1 _ 1 }:"), ("tsapt", "a > e / :{ C=1 s _ 1, C=1 _ p 1 }:"),
+    ("tptsat", "V > [+nasal] / :{ [-son]=1 _ 1, [-son]=1 s _ 1 }:"), ("aptips", "i > [+nasal] / :{ O=1 O=2 _ 1 2, [-son]=1 _ 1 }:"),
+    ("pata", "*, a > i, e / _#"), ("pat", "t, * > d, i / _#"), ("pata", "a, * > *, i / _#"), ("sa.taaaa.ka", "V > [+stress]"), ("mmmm.ta", "[+son] > [tone: 3]"),
+];
+
 pub fn ops(args: &[String]) -> i32 {
     quiet_panics();
     let mut ops = std::io::BufWriter::new(std::fs::File::create(&args[0]).unwrap());
@@ -53,8 +60,9 @@ pub fn ops(args: &[String]) -> i32 {
     let n = if thorough { 400000 } else { 30000 };
     let mut g = Gen::new(seed ^ 0x1A7E);
     let mut st = crate::runner::Stats::new();
-    for case in 0..n {
+    for case in 0..n + CORPUS2.len() {
         let (rules, word): (Vec<String>, String) = match case % 6 {
+            _ if case >= n => (vec![CORPUS2[case - n].1.to_string()], CORPUS2[case - n].0.to_string()),
             _ if case < CORPUS.len() => (vec![CORPUS[case].1.to_string()], CORPUS[case].0.to_string()),
             0 => (vec![g.rule(Profile::Basic)], g.word()),
             1 | 2 => (vec![g.rule(Profile::Tame)], g.word()),
